@@ -231,6 +231,40 @@ func runC19(c *fw.Ctx) {
 			}
 		}
 	}
+	// export without copying, then re-use the exporter: the loaded tree must not change (no shared backing array);
+	// and a rejected SetTree must leave a populated object intact
+	{
+		var x, y util.MerkleTree
+		x.ComputeTree(leaves)
+		if err := y.SetTree(n, x.GetTree()); err != nil {
+			c.Violate("", "n=%d: SetTree(n, GetTree()) failed: %v", n, err)
+			return
+		}
+		x.ComputeTree(leavesB) // same size, different leaves
+		if n > 1 {
+			x.ComputeTree(leavesB[:n-1]) // and a smaller tree
+		}
+		for _, wrong := range []int{n + 1, 2*n + 1, 4*n + 3, 1} {
+			if refTreeSize(wrong) == refTreeSize(n) {
+				continue
+			}
+			if err := y.SetTree(wrong, make([]string, refTreeSize(n))); err == nil {
+				c.Violate("", "n=%d: SetTree(%d, tree of the wrong size) was accepted", n, wrong)
+			}
+		}
+		if y.GetRoot() != root {
+			c.Violate("", "n=%d: a tree loaded with SetTree changed its root after the exporting object computed another tree / after a rejected SetTree", n)
+		} else {
+			for _, i := range []int{0, n / 2, n - 1, c.Rng.Intn(n)} {
+				p := y.GetPathByIndex(i)
+				if p == nil || !refVerify(ls[i], p.Nodes, i, root) || !util.VerifyMerklePath(ls[i], p, root) {
+					c.Violate("", "n=%d: path %d of a loaded tree no longer verifies after the exporter was re-used / after a rejected SetTree (path length %d)", n, i, len(p.Nodes))
+					break
+				}
+				c.Count("loaded_tree_paths_after_exporter_reuse", 1)
+			}
+		}
+	}
 	if n == 1 || n == 2 || n == 3 || n == 1000 {
 		c.Sample(map[string]any{"n": n, "root": root, "path_of_last_leaf": mt.GetPathByIndex(n - 1)})
 	}
@@ -253,12 +287,12 @@ func init() {
 		Level: "exploration",
 		Rule: "one case per leaf count n=1..N (N=1024 quick, 4096 thorough) with distinct 64-hex leaf hashes derived from (seed,n,i); every leaf index i is exercised: " +
 			"path by index and by leaf lookup must verify against GetRoot() (library verifier and an independent one), root must equal an independent pairwise/duplicate-last reference, " +
-			"the same path must not verify for other leaves (all others for n<=64; neighbours, sibling, last leaves, 3 random and a one-nibble mutation above), export/import must reproduce root and paths; a different tree (rotated leaves plus one new leaf) is then loaded with SetTree / re-computed with ComputeTree into the objects that already served lookups and its by-leaf and by-index paths must prove the new leaves only. " +
+			"the same path must not verify for other leaves (all others for n<=64; neighbours, sibling, last leaves, 3 random and a one-nibble mutation above), export/import must reproduce root and paths; a different tree (rotated leaves plus one new leaf) is then loaded with SetTree / re-computed with ComputeTree into the objects that already served lookups and its by-leaf and by-index paths must prove the new leaves only; a tree loaded from GetTree() without copying must be unaffected by the exporter computing other trees, and by SetTree calls on itself that are rejected for a wrong size. " +
 			"distinct non-trivial = distinct (n,i) pairs whose path was produced and verified",
 		Cases:      c19Sizes,
 		Run:        runC19,
 		Exhaustive: func(string) bool { return true },
-		Floors:     map[string]int64{"trees": 1000, "paths_verified": 500000, "other_leaf_rejections": 3000000, "settree_wrong_size_rejected": 1000, "reused_object_paths": 5000},
+		Floors:     map[string]int64{"trees": 1000, "paths_verified": 500000, "other_leaf_rejections": 3000000, "settree_wrong_size_rejected": 1000, "reused_object_paths": 5000, "loaded_tree_paths_after_exporter_reuse": 3000},
 		Assumptions: []string{
 			"leaf hashes are distinct fixed-length (64 hex) strings: the tree concatenates strings, variable-length leaves are outside the property's domain",
 			"exhaustive over n<=N and all indices, not over all leaf values",
